@@ -368,6 +368,8 @@ def compare(it, op, a, b):
 
 
 def _is(it, a, b):
+    if a is b:
+        return True
     if a is None or b is None:
         return a is None and b is None
     if isinstance(a, bool) and isinstance(b, bool):
